@@ -26,6 +26,12 @@ func (group *Group) StartPull(info base.ApiCtrlStartRelayPullReq) (string, error
 	group.mutex.Lock()
 	defer group.mutex.Unlock()
 
+	// 已经有pull session挂在group上，或者正在建立中：这次调用会被拒绝，此时不能修改正在工作的pull的参数，
+	// 否则一个返回失败的调用会把正在工作的pull停掉（比如auto_stop_pull_after_no_out_ms=0），或者让它之后的重试走新的url
+	if group.pullProxy.isSessionPulling || group.pullProxy.rtmpSession != nil || group.pullProxy.rtspSession != nil {
+		return "", base.ErrDupInStream
+	}
+
 	group.pullProxy.apiEnable = true
 	group.pullProxy.pullUrl = info.Url
 	group.pullProxy.pullTimeoutMs = info.PullTimeoutMs
